@@ -2756,7 +2756,8 @@ let table =
     e_reach = Slot; e_ret = TBool; e_params =
     (true :: (true :: (false :: []))); e_self = (Some O); e_slots = (S O);
     e_parsed = true; e_prelude = ((Guard (GAssert, (O :: []),
-    RvFalse)) :: (Body :: [])) } :: ({ e_name =
+    RvFalse)) :: ((Guard (GRequire, ((S O) :: []),
+    RvFalse)) :: (Body :: []))) } :: ({ e_name =
     (X73 :: (X70 :: (X69 :: (X66 :: (X5f :: (X61 :: (X72 :: (X72 :: (X61 :: (X79 :: (X5f :: (X69 :: (X74 :: (X65 :: (X72 :: (X61 :: (X74 :: (X6f :: (X72 :: [])))))))))))))))))));
     e_reach = Slot; e_ret = TPtr; e_params = (true :: []); e_self = (Some O);
     e_slots = (S (S (S O))); e_parsed = true; e_prelude = ((Guard (GAssert,
@@ -4194,4 +4195,4 @@ let exempt =
 (** val table_digest : fname **)
 
 let table_digest =
-  X36 :: (X32 :: (X33 :: (X35 :: (X65 :: (X63 :: (X62 :: (X62 :: (X61 :: (X34 :: (X36 :: (X36 :: (X65 :: (X63 :: (X33 :: (X31 :: [])))))))))))))))
+  X33 :: (X33 :: (X62 :: (X62 :: (X61 :: (X66 :: (X66 :: (X38 :: (X61 :: (X32 :: (X63 :: (X64 :: (X37 :: (X63 :: (X33 :: (X61 :: [])))))))))))))))
